@@ -20,6 +20,7 @@ import (
 
 	"github.com/artela-network/artela-evm/vm"
 	"github.com/ethereum/go-ethereum/common"
+	"github.com/ethereum/go-ethereum/crypto"
 	"github.com/holiman/uint256"
 	"verif/harness/evmx"
 )
@@ -52,7 +53,22 @@ func inCode(steps int, tx string) []byte {
 	for k := 1; k <= steps; k++ {
 		a.Label(fmt.Sprintf("it%d", k))
 		if k == 1 {
+			// opcodes whose price EIP-1884 changes on this (pre-Istanbul) fork, then the opcode EIP-3855 adds
+			a.Push(1).Op(vm.SLOAD, vm.POP, vm.ADDRESS, vm.BALANCE, vm.POP, vm.ADDRESS, vm.EXTCODEHASH, vm.POP)
 			a.Op(vm.PUSH0, vm.POP)
+			// a long string at slot 0 (40 bytes: header 81, data at keccak(0)) and a short one at slot 1, both journaled
+			a.Push(81).Push(0).Op(vm.SSTORE)
+			d0 := new(big.Int).SetBytes(crypto.Keccak256(make([]byte, 32)))
+			a.PushBytes(bytesRepeat(byte(v), 32)).PushBig(d0).Op(vm.SSTORE)
+			a.PushBytes(append(bytesRepeat(byte(v+1), 8), make([]byte, 24)...)).PushBig(new(big.Int).Add(d0, big.NewInt(1))).Op(vm.SSTORE)
+			a.PushBytes(append([]byte("hi"), append(make([]byte, 29), 4)...)).Push(1).Op(vm.SSTORE)
+			a.MStore32(0x140, []byte{1})
+			a.MStoreBytes(0x160, []byte("s"))
+			a.PushBytes(jcType[:]).Push(0).Push(0x140).Op(vm.RSVJNAL)
+			a.PushBytes(jcType[:]).Push(0).Op(vm.VRJNAL)
+			a.MStoreBytes(0x160, []byte("t"))
+			a.PushBytes(jcType[:]).Push(1).Push(0x140).Op(vm.RSVJNAL)
+			a.PushBytes(jcType[:]).Push(1).Op(vm.VRJNAL)
 			// register a mapping "m" at slot 7 and three members, journal their values
 			a.MStore32(0xC0, []byte{1})
 			a.MStoreBytes(0xE0, []byte("m"))
@@ -78,6 +94,14 @@ func inCode(steps int, tx string) []byte {
 	return a.Bytes()
 }
 
+func bytesRepeat(b byte, n int) []byte {
+	out := make([]byte, n)
+	for i := range out {
+		out[i] = b
+	}
+	return out
+}
+
 type inGate struct {
 	grant  chan struct{}
 	parked chan struct{}
@@ -91,6 +115,7 @@ type inTracer struct {
 	g          *inGate
 	started    bool
 	entryStack []int
+	prices     []string // price charged for the opcodes an extra EIP may reprice
 }
 
 func (t *inTracer) CaptureTxStart(uint64) {}
@@ -106,6 +131,9 @@ func (t *inTracer) CaptureFault(uint64, vm.OpCode, uint64, uint64, *vm.ScopeCont
 func (t *inTracer) CaptureState(pc uint64, op vm.OpCode, gas, cost uint64, scope *vm.ScopeContext, rData []byte, depth int, err error) {
 	if pc == 0 {
 		t.entryStack = append(t.entryStack, len(scope.Stack.Data()))
+	}
+	if op == vm.SLOAD || op == vm.BALANCE || op == vm.EXTCODESIZE || op == vm.EXTCODEHASH {
+		t.prices = append(t.prices, fmt.Sprintf("%s=%d", op, cost))
 	}
 	if t.g.free || depth != 1 || op != vm.JUMPDEST || err != nil {
 		return
@@ -123,8 +151,9 @@ type inResult struct {
 	EntryStacksClean bool
 }
 
-func inDigest(e *evmx.Env, res evmx.Result) (string, string) {
+func inDigest(e *evmx.Env, res evmx.Result, prices []string) (string, string) {
 	var sb strings.Builder
+	fmt.Fprintf(&sb, "prices=%v;", prices)
 	fmt.Fprintf(&sb, "ret=%x left=%d err=%v root=%x logs=%d;", res.Ret, res.Left, res.Err, e.State.IntermediateRoot(true), len(e.State.Logs()))
 	j, _ := json.Marshal(evmx.DumpTree(e.EVM.Tracer()))
 	sb.Write(j)
@@ -141,6 +170,7 @@ func inDigest(e *evmx.Env, res evmx.Result) (string, string) {
 		c, _ := sc.Slot(inMain, uint256.NewInt(20+m), nil, jcType)
 		fmt.Fprintf(&sb, ";s%d=%s", m, renderChanges(c))
 	}
+	fmt.Fprintf(&sb, ";str0=%s;str1=%s", renderChanges(sc.Variable(inMain, "s")), renderChanges(sc.Variable(inMain, "t")))
 	fmt.Fprintf(&sb, ";bal=%s/%s", renderChanges(sc.Balance(inMain)), renderChanges(sc.Balance(inOther)))
 	h := sha256.Sum256([]byte(sb.String()))
 	return hex.EncodeToString(h[:8]), sb.String()
@@ -166,10 +196,13 @@ func newInstance(want int, tx string, steps int, free bool) *inInstance {
 // construct builds the EVM (NewEVM -> NewEVMInterpreter: pick / copy / enable)
 func (in *inInstance) construct() {
 	var eips []int
-	if in.want == 1 {
-		eips = []int{3855}
+	if in.want&1 != 0 {
+		eips = append(eips, 3855)
 	}
-	in.env = evmx.NewEnvWithTracer(evmx.EnvOpts{Fork: "London", ExtraEips: eips}, in.tr)
+	if in.want&2 != 0 {
+		eips = append(eips, 1884)
+	}
+	in.env = evmx.NewEnvWithTracer(evmx.EnvOpts{Fork: "Constantinople", ExtraEips: eips}, in.tr)
 	st := in.env.State
 	st.SetCode(inMain, inCode(in.steps, in.tx))
 	st.SetNonce(inMain, 1)
@@ -196,7 +229,7 @@ func (in *inInstance) run() {
 	default:
 		r.Class = "err:" + res.Err.Error()
 	}
-	r.Digest, r.Detail = inDigest(in.env, res)
+	r.Digest, r.Detail = inDigest(in.env, res, in.tr.prices)
 	r.Closed = in.env.EVM.Tracer().CallTree().Current() == nil
 	r.EntryStacksClean = true
 	for _, n := range in.tr.entryStack {
@@ -293,7 +326,7 @@ func inReplay(b *inBeh, steps int, solo map[string]inResult) (out []inMismatch) 
 		if r == nil {
 			continue
 		}
-		desc := fmt.Sprintf("instance %d (extra EIPs %v, tx %s) in schedule %v", i+1, b.Want[i] == 1, b.Tx[i], b.Hist)
+		desc := fmt.Sprintf("instance %d (extra EIPs mask %d [1=3855 2=1884], tx %s) in schedule %v", i+1, b.Want[i], b.Tx[i], b.Hist)
 		if r.Panic != "" {
 			miss("in.panic", "%s panicked: %s", desc, r.Panic)
 			continue
@@ -349,7 +382,7 @@ func instancesCmd(args []string) int {
 	// determinism: every configuration alone, several times, interleaved with the other configurations
 	solo := map[string]inResult{}
 	var keys []string
-	for _, w := range []int{0, 1} {
+	for _, w := range []int{0, 1, 2, 3} {
 		for _, tx := range []string{"A", "B"} {
 			keys = append(keys, fmt.Sprintf("%d/%s", w, tx))
 		}
@@ -364,14 +397,14 @@ func instancesCmd(args []string) int {
 			if first, ok := solo[k]; !ok {
 				solo[k] = res
 			} else if first.Digest != res.Digest {
-				add([]inMismatch{{Comp: "in.determinism", Detail: fmt.Sprintf("the same transaction (extra EIPs %v, tx %s) on equal pre-state gave different observable outcomes in run 1 and run %d:\n  %s\n  %s", w == 1, tx, r+1, first.Detail, res.Detail)}},
+				add([]inMismatch{{Comp: "in.determinism", Detail: fmt.Sprintf("the same transaction (extra EIPs mask %d, tx %s) on equal pre-state gave different observable outcomes in run 1 and run %d:\n  %s\n  %s", w, tx, r+1, first.Detail, res.Detail)}},
 					fmt.Sprintf(`{"config":"%s","repetition":%d}`, k, r+1))
 			}
 		}
 	}
 	for _, k := range keys {
 		want := "invalid"
-		if strings.HasPrefix(k, "1") {
+		if strings.HasPrefix(k, "1") || strings.HasPrefix(k, "3") {
 			want = "ok"
 		}
 		if solo[k].Class != want {
@@ -409,6 +442,7 @@ func instancesCmd(args []string) int {
 			}
 		}
 		if len(b.Want) > 1 && b.Want[0] != b.Want[1] {
+			// the two instances run under different extra EIPs
 			rep.Nontrivial++
 		}
 		add(ms, body)
@@ -422,7 +456,7 @@ func instancesCmd(args []string) int {
 		res := make([]inResult, 8)
 		cfg := make([]string, 8)
 		for i := 0; i < 8; i++ {
-			w, tx := i%2, []string{"A", "B"}[(i/2)%2]
+			w, tx := i%4, []string{"A", "B"}[(i/4)%2]
 			cfg[i] = fmt.Sprintf("%d/%s", w, tx)
 			wg.Add(1)
 			go func(i, w int, tx string) {
